@@ -90,6 +90,24 @@ func (x *inst) enabled() []string {
 				}
 				out = append(out, fmt.Sprintf("Rm:%d", i))
 			}
+		case "Fold":
+			if !m.Open || m.Mode != "RW" {
+				continue
+			}
+			for i := 1; i < len(m.Chain)-1; i++ {
+				if s := m.Chain[i]; s.Removed && !s.Folded && !m.Chain[i-1].Retained() {
+					out = append(out, fmt.Sprintf("Fold:%d", i))
+				}
+			}
+		case "RmF":
+			if !m.Open || m.Mode != "RW" {
+				continue
+			}
+			for i := 1; i < len(m.Chain)-1; i++ {
+				if m.Chain[i].Folded {
+					out = append(out, fmt.Sprintf("RmF:%d", i))
+				}
+			}
 		case "Revert":
 			if !m.Open {
 				continue
